@@ -152,6 +152,20 @@ func blockedInLibrary() (where, state string) {
 			if strings.HasPrefix(fn, "runtime.") || strings.HasPrefix(fn, "sync.") || strings.HasPrefix(fn, "sync/") || strings.HasPrefix(fn, "internal/") || strings.HasPrefix(fn, "golang.org/x/sync") {
 				continue
 			}
+			// waiting for input on a pipe or connection is waiting for the
+			// harness's peer, whoever asked for the bytes
+			if strings.Contains(fn, ").read(") || strings.Contains(fn, ").Read(") || strings.Contains(fn, "io.ReadAtLeast") || strings.Contains(fn, "io.ReadFull") {
+				if !strings.HasPrefix(fn, "github.com/gregoryv/mq.") {
+					return "", state
+				}
+			}
+			// other standard-library frames (fmt, io, bufio, text/tabwriter ...)
+			// between the parked operation and its caller are looked through:
+			// a library function that writes into a pipe of its own making
+			// and waits there for ever is blocked in the library
+			if isStdPkg(fn) {
+				continue
+			}
 			if strings.HasPrefix(fn, "github.com/gregoryv/mq.") {
 				fn = strings.TrimPrefix(fn, "github.com/gregoryv/mq.")
 				if j := strings.LastIndexByte(fn, '('); j > 0 {
@@ -298,4 +312,18 @@ func runCase(chk Check, c *Ctx, phase, idx int) {
 		}
 	}()
 	chk.Run(c, phase, idx)
+}
+
+// isStdPkg reports whether a stack frame's function belongs to the standard
+// library: its import path has no dot in the first element ("fmt.Fprintf",
+// "io.(*pipe).write", "text/tabwriter.(*Writer).Flush"), and it is neither
+// the harness nor main.
+func isStdPkg(fn string) bool {
+	if strings.HasPrefix(fn, "verif/") || strings.HasPrefix(fn, "main.") {
+		return false
+	}
+	if i := strings.Index(fn, "/"); i >= 0 {
+		return !strings.Contains(fn[:i], ".")
+	}
+	return true
 }
